@@ -1,13 +1,18 @@
 import HdVerif.Proofs.PMap
+import HdVerif.Props.C07
 /-! # C19  Parametric maps and secondary captures store the given pixels
 
 Property theorems only (helper lemmas: `Proofs/PMap.lean`, and for the secondary capture the C07
 development in `Proofs/Codec.lean`).  Regenerated from /repo's current source on every run (tie T):
 `Gen.pmPixelDataType`, `Gen.pmPixelDataAttr`, `Gen.pmSyntaxAdmitted`, `Gen.pmBits` (parametric map),
+`Gen.pmFrameLoop`, `Gen.pmPlaneSubscript`, `Gen.pmPositionIndex`, `Gen.pmMappingIndex`, `Gen.pmHasMultipleMappings`,
+`Gen.pmSharedMappingIndex` (T19l: the loop skeleton of `ParametricMap.__init__` -- which plane becomes which frame and
+what is attached to it; `Model/PMap.build` is written with them, so `frame_of_plane_mapping`, `rwvm_of_frame`,
+`pixel_data_is_concatenation` are statements about the regenerated loop and break when it changes),
 `Gen.scPixelModule` (secondary capture), `Gen.encodeFrameRoute` / `Gen.decodeFrameRoute` / `Gen.bitSlice`
-(the frame of a secondary capture goes through `encode_frame`).  Hand-modelled and tied by the
-correspondence: the constructor's loop nest and what it appends, the pixel data element, reading a
-frame back, finding and applying the real-world value mapping (`Model/PMap.lean`).
+(the frame of a secondary capture and of an encapsulated map goes through `encode_frame`).  Hand-modelled and tied by
+the correspondence: the values of a plane in row-major order, the dimension index, reading a frame back from the
+native element, finding and applying the real-world value mapping (`Model/PMap.lean`).
 
 Values are opaque cells (the item's little-endian bytes), so "equal" below is bit-exact equality,
 NaN payloads, infinities and negative zero included. -/
@@ -16,7 +21,9 @@ open HdVerif HdVerif.Gen HdVerif.Codec HdVerif.PMap
 
 /-! ## what is built -/
 
-/-- **Element and bits by dtype; what is refused.**  The constructor builds an object exactly for the
+/-- **Element and bits by dtype; what is refused.**  Given otherwise valid arguments (the model has no field for the
+constructor's other refusals: a window width <= 0, a palette colour LUT with float data, source images that do not
+belong together, the content label guard), the constructor builds an object exactly for the
 inputs of `Admitted`: uint8/uint16 (native byte order) -> `PixelData`, bits allocated = stored = 8*itemsize,
 high bit, unsigned; float32 -> `FloatPixelData`, 32 bits; float64 -> `DoubleFloatPixelData`, 64 bits (no bits
 stored / high bit / pixel representation); rank 2, 3 or 4; a flat mapping sequence for rank 2/3, a
@@ -94,7 +101,7 @@ theorem refuses_compressed_float (x : PMInput) (hk : x.dtypeKind ≠ "u")
 
 /-! ## one frame per plane and mapping, per-frame metadata in the same order -/
 
-/-- **`frame_of_plane_mapping`**: the object has `n*m` frames; frame `i*m + j` (0-based) holds plane `i` of
+/-- **`frame_of_plane_mapping`** (over the regenerated loop skeleton T19l): the object has `n*m` frames; frame `i*m + j` (0-based) holds plane `i` of
 channel `j`, i.e. `pixel_array[i, :, :, j]`, and the per-frame functional group at the same index carries
 the position of plane `i`, its dimension index, and -- when there are several channels -- the mappings of
 channel `j`. -/
@@ -130,7 +137,7 @@ theorem dimension_index_monotone (x : PMInput) (a b d : Nat) (ha : a < x.n) (u v
   ⟨_, _, dimensionIndex_get x a d u hu, dimensionIndex_get x b d v hv,
     rankIn_lt _ u v (mem_attributeValues x a d ha u hu) hlt⟩
 
-/-- **`rwvm_of_frame`**: the mappings are shared by all frames iff there is a single channel; otherwise
+/-- **`rwvm_of_frame`** (sharing threshold and indices regenerated, T19l): the mappings are shared by all frames iff there is a single channel; otherwise
 every frame carries its own, and the mapping list the reader finds for frame `f` is that of channel
 `f mod m`. -/
 theorem rwvm_of_frame (x : PMInput) (o : PMObject) (h : build x = .ok o) :
@@ -143,9 +150,12 @@ theorem rwvm_of_frame (x : PMInput) (o : PMObject) (h : build x = .ok o) :
 
 /-! ## stores the values bit-exactly; reading returns them -/
 
-/-- **`bytes_exact`, storing**: the (native) pixel data element is the concatenation, in frame order, of the
-cells of each plane in row-major order -- nothing is converted, rounded or re-ordered. -/
-theorem pixel_data_is_concatenation (x : PMInput) (o : PMObject) (h : build x = .ok o) :
+/-- **`bytes_exact`, storing** (native transfer syntaxes; frame order from the regenerated loop, T19l, which also checks
+`b''.join(frames)` into the element of T19a and the little-endian `tobytes` of `_encode_frame`; that a plane's cells are
+the array's items in row-major order is tied by the correspondence, byte for byte, for every generated map incl. float
+maps with NaN payloads): the pixel data element is the concatenation, in frame order, of the cells of each plane in
+row-major order -- nothing is converted, rounded or re-ordered. -/
+theorem pixel_data_is_concatenation (x : PMInput) (o : PMObject) (h : build x = .ok o) (hts : x.ts ∈ nativeSyntaxes) :
     o.pixelData = ((loopNest x.n x.m (plane x)).map List.flatten).flatten := by
   obtain ⟨_, _, _, _, _, _, _, _, _, _, _, _, _, _, _, _, hfr, _, _⟩ := build_ok x o h
   unfold PMObject.pixelData; rw [hfr]
@@ -153,17 +163,30 @@ theorem pixel_data_is_concatenation (x : PMInput) (o : PMObject) (h : build x = 
 /- Full statement (does NOT hold on the current code, see `counterexample_float_frames`):
    stored_frames_exact : build x = .ok o → CellsWF x → f < x.n * x.m →
        readStoredFrame o f = .ok (plane x (f / x.m) (f % x.m)) -/
-/-- **`bytes_exact`, reading** (partial: maps stored in `PixelData`, i.e. uint8 / uint16): for every shape,
-every number of planes and channels and every content, reading frame `f` through the image interface
+/-- **`bytes_exact`, reading** (partial: maps stored in `PixelData`, i.e. uint8 / uint16; **native transfer syntaxes** --
+`readStoredFrame` slices the native element; encapsulated maps: `stored_frames_exact_encapsulated_partial`): for every
+shape, every number of planes and channels and every content, reading frame `f` through the image interface
 returns exactly the cells of plane `f / m`, channel `f mod m`. -/
-theorem stored_frames_exact_partial (x : PMInput) (o : PMObject) (h : build x = .ok o) (hel : o.element = "PixelData")
-    (hw : CellsWF x) (f : Nat) (hf : f < x.n * x.m) :
+theorem stored_frames_exact_partial (x : PMInput) (o : PMObject) (h : build x = .ok o) (hts : x.ts ∈ nativeSyntaxes)
+    (hel : o.element = "PixelData") (hw : CellsWF x) (f : Nat) (hf : f < x.n * x.m) :
     readStoredFrame o f = .ok (plane x (f / x.m) (f % x.m)) :=
   readStoredFrame_build x o h hel hw f hf
 
-/-- frame numbers beyond the image are refused -/
-theorem stored_frame_out_of_range (x : PMInput) (o : PMObject) (h : build x = .ok o) (hel : o.element = "PixelData")
-    (f : Nat) (hf : x.n * x.m ≤ f) : readStoredFrame o f = .error .index := by
+/-- **`bytes_exact`, reading, encapsulated maps** (RLE Lossless, JPEG-LS Lossless; uint8 / uint16 -- the only dtypes
+admitted there): every plane goes through `encode_frame` (C07's regenerated tree) with the data set's own attributes and
+the items are kept in frame order (T19l); if the codec behind it is lossless on `codecRegion` (the law the correspondence
+demands of the real codecs on that region; `HdVerif.C07.tagCodec` obeys it and accepts), reading frame `f` returns the
+values of plane `f / m`, channel `f mod m`.  JPEG 2000 Lossless is admitted by the constructor but outside the region (no
+encoder installed: nothing observed). -/
+theorem stored_frames_exact_encapsulated_partial (c : CodecImpl) (hc : c.LosslessOn codecRegion) (conv : List Int → List Int)
+    (x : PMInput) (e : PMEncapsulated) (h : buildEncapsulated c x = .ok e) (hts : x.ts = rle ∨ x.ts = jpegLs)
+    (f : Nat) (hf : f < x.n * x.m) :
+    readStoredFrameEncapsulated c conv x.ts e f = .ok ((plane x (f / x.m) (f % x.m)).map cellValue) :=
+  readStoredFrameEncapsulated_build c hc conv x e h hts f hf
+
+/-- frame numbers beyond the image are refused (native) -/
+theorem stored_frame_out_of_range (x : PMInput) (o : PMObject) (h : build x = .ok o) (hts : x.ts ∈ nativeSyntaxes)
+    (hel : o.element = "PixelData") (f : Nat) (hf : x.n * x.m ≤ f) : readStoredFrame o f = .error .index := by
   obtain ⟨_, _, _, _, _, _, _, _, _, _, _, _, _, _, _, hn, _, _, _⟩ := build_ok x o h
   unfold readStoredFrame
   have : (o.element != "PixelData") = false := by simp [hel]
@@ -184,19 +207,23 @@ theorem counterexample_float_frames (x : PMInput) (o : PMObject) (h : build x = 
   · rw [he]; decide
 
 /- Full statement: as below for every dtype. -/
-/-- **`read_applies_attached_mapping`** (partial in the same way): reading frame `f` with the real-world
+/-- **`read_applies_attached_mapping`** (partial in the same way: integer maps, native transfer syntaxes; the mapping is
+applied with exact rational arithmetic -- `image.py` computes `frame * slope + intercept` in float64, the generator draws
+dyadic slopes / intercepts / table entries on which both agree; batch reads `get_frames`, `get_volume` and the lazy path
+are covered by the oracle only): reading frame `f` with the real-world
 value transform applies, to the stored values of plane `f / m`, channel `f mod m`, the mapping selected
 (by index, negative index, label or unit) from the mappings **of that channel** -- a look-up in its table
 (also a table with one entry) or `slope * x + intercept`, refusing values outside the mapped range -- and nothing else. -/
 theorem read_applies_attached_mapping_partial (x : PMInput) (o : PMObject) (h : build x = .ok o)
-    (hel : o.element = "PixelData") (hw : CellsWF x) (f : Nat) (hf : f < x.n * x.m) (sel : Selector) :
+    (hts : x.ts ∈ nativeSyntaxes) (hel : o.element = "PixelData") (hw : CellsWF x) (f : Nat) (hf : f < x.n * x.m)
+    (sel : Selector) :
     readReal o f sel =
       (select (x.maps (f % x.m)) sel).bind (fun mp => applyMapping mp ((plane x (f / x.m) (f % x.m)).map cellValue)) :=
   readReal_build x o h hel hw f hf sel
 
 /-- the mapping that is applied is one of the frame's own mappings, and a one-entry table maps the frame that holds only
 its value (the input class of the fixed finding C19-rwvm-single-entry-lut) -/
-theorem read_single_entry_table (x : PMInput) (o : PMObject) (h : build x = .ok o)
+theorem read_single_entry_table (x : PMInput) (o : PMObject) (h : build x = .ok o) (hts : x.ts ∈ nativeSyntaxes)
     (hel : o.element = "PixelData") (hw : CellsWF x) (f : Nat) (hf : f < x.n * x.m) (sel : Selector) (mp : Mapping)
     (hsel : select (x.maps (f % x.m)) sel = .ok mp) (hlut : mp.isLut = true) (y : Rat) (hone : mp.lut = [y])
     (v : Int) (hv : mp.first = (v : Rat)) (k : Nat) (hp : (plane x (f / x.m) (f % x.m)).map cellValue = List.replicate k v) :
@@ -389,5 +416,25 @@ example : (scBuild noCodec "1.2.840.10008.1.2.1" "MONOCHROME2" 12 ⟨1, 3, none,
     (fun o => (o.bitsAllocated, o.bitsStored, o.highBit, o.frameBytes)) = some (12, 12, 11, [1,0, 0,16, 0,1]) := by decide
 example : ((scBuild noCodec "1.2.840.10008.1.2.1" "MONOCHROME2" 12 ⟨1, 3, none, .u16, [1, 4096, 256]⟩).toOption.map
     (fun o => (scDecode noCodec id "1.2.840.10008.1.2.1" o).toOption)) = some none := by decide
+
+/-! ### encapsulated: the hypotheses are met by a codec that accepts (`HdVerif.C07.tagCodec`: validates, one-byte header) -/
+
+open HdVerif.C07 in
+/-- an RLE secondary capture, built through the non-trivial codec; the theorem applies and gives the array back -/
+example : (scBuild tagCodec rle "MONOCHROME2" 8 ⟨2, 2, none, .u8, [1, 2, 3, 255]⟩).toOption.map (fun o => o.frameBytes) =
+    some [0x54, 2, 4, 6, 510] := by decide
+open HdVerif.C07 in
+example (o : SCObject) (h : scBuild tagCodec rle "MONOCHROME2" 8 ⟨2, 2, none, .u8, [1, 2, 3, 255]⟩ = .ok o) :
+    scDecode tagCodec id rle o = .ok [1, 2, 3, 255] :=
+  sc_decodes_equal_encapsulated_partial tagCodec (tagCodec_lossless _) id rle "MONOCHROME2" 8 _ o (Or.inl rfl) (by decide) h
+open HdVerif.C07 in
+/-- the example map with RLE: four items in frame order; reading frame 2 (plane 1, channel 0) gives its values -/
+example : (buildEncapsulated tagCodec { exampleInput with ts := rle }).toOption.map (fun e => e.items) =
+    some [[0x54, 2, 6], [0x54, 4, 8], [0x54, 10, 14], [0x54, 12, 16]] := by decide
+open HdVerif.C07 in
+example (e : PMEncapsulated) (h : buildEncapsulated tagCodec { exampleInput with ts := rle } = .ok e) :
+    readStoredFrameEncapsulated tagCodec id rle e 2 = .ok [5, 7] :=
+  stored_frames_exact_encapsulated_partial tagCodec (tagCodec_lossless _) id { exampleInput with ts := rle } e h (Or.inl rfl) 2
+    (by decide)
 
 end HdVerif.C19
